@@ -287,7 +287,7 @@ def cdf_probe(ctx, B, dig):
         ctx.branches["c18.observation:cdf_is_one_minus_discounted_digital"] += 1
 
 
-def fft_probes(ctx, B, call, put):
+def fft_probes(ctx, B, call, put, heavy=True):
     case, T, K, spot = B.case, B.T, B.K, B.spot
     fft = FFTPricer(B.model)
     try:
@@ -297,8 +297,19 @@ def fft_probes(ctx, B, call, put):
             ctx.branches["c18.fft.alpha_condition_rejected"] += 1
             return None
         raise
-    fp = np.asarray(fft.put(K, T))
     ref = B.df * (B.F - K)
+    if not heavy:
+        # light cases: one FFT only (COS ~ FFT); parity / scalar / model composition of the put run on the heavy cases
+        ctx.count("c18.fft", case, nontrivial=B.fftbox, branch=case["fam"] + ":light")
+        if B.fftbox:
+            err = np.max(np.abs(fc - call))
+            note("cos_fft", err, FFT_TOL * spot)
+            if err > FFT_TOL * spot:
+                j = int(np.argmax(np.abs(fc - call)))
+                ctx.fail("oracle", "c18.cos_fft", case, {"what": "COS and FFT calls differ", "K": K[j], "cos": call[j], "fft": fc[j],
+                                                        "tol": FFT_TOL * spot}, cls=B.cls)
+        return fc
+    fp = np.asarray(fft.put(K, T))
     ctx.count("c18.fft", case, nontrivial=B.fftbox, branch=case["fam"] + (":box" if B.inbox else ":out"))
     err = np.max(np.abs(fc - fp - ref))
     note("fft.parity", err, 1e-10 * spot)
@@ -636,7 +647,7 @@ def run_case(ctx, case, rng, heavy=True):
     coefficient_corr(ctx, B, rng)
     cdf_probe(ctx, B, dig)
     reuse_probe(ctx, B, heavy)
-    fc = fft_probes(ctx, B, call, put) if heavy or B.inbox else None
+    fc = fft_probes(ctx, B, call, put, heavy) if heavy or B.inbox else None
     if not B.inbox:
         return B
     shape_probes(ctx, B, call, put, dig)
